@@ -1,4 +1,5 @@
 import PV.Lemmas.Res.Balance
+import PV.Generated.ResSites
 /-! # C20 — resource neutrality
 
 "After any sequence of library calls in which every object obtained is eventually freed (and named IPC objects
@@ -89,6 +90,13 @@ theorem fd_closed_exactly_once (lines : List String) (f : Nat → Bool) (rs : Li
 theorem never_faults (lines : List String) (f : Nat → Bool) : ∃ r s', (runLines lines {}).run f {} = .ok r s' :=
   let ⟨rs, env', s', h, _⟩ := footprint_inv lines f
   ⟨(rs, env'), s', h⟩
+
+/-- **The model's acquisitions and releases are those of the source.**  Per function of the in-scope files, the number of
+    call sites that acquire a system resource (socket, accept, open, fopen, opendir, shm_open, mmap, sem_open, dlopen,
+    pthread_key_create, pthread_create) and of call sites that release one, in the sources as compiled for this platform
+    (`tools/extract.py`), equal the snapshot the resource programs were transliterated from.  A release removed from an error
+    exit that no sampled sequence reaches is a broken obligation here. -/
+theorem sys_sites_as_modelled : PV.Generated.resSysSites = modelSysSites := by decide +kernel
 
 /-! ## non-vacuity -/
 
